@@ -990,7 +990,26 @@ class _EscapedRepr:
     def __init__(self, value: object) -> None:
         self._value = value
     def __repr__(self) -> str:
-        return html.escape(repr(self._value), quote=False)
+        return html.escape(_stable_repr(self._value), quote=False)
+
+def _stable_repr(value: object) -> str:
+    """
+    Like L{repr}, but the elements of a set or frozenset (also nested in a tuple, list or dict) 
+    are listed in the order of their own representation instead of hash order, 
+    so that the same value is always shown in the same way.
+    """
+    t = type(value)
+    if t in (set, frozenset) and value:
+        body = '{' + ', '.join(sorted(_stable_repr(v) for v in value)) + '}' # type: ignore[attr-defined]
+        return body if t is set else f'frozenset({body})'
+    if t is tuple and value:
+        items = [_stable_repr(v) for v in value] # type: ignore[attr-defined]
+        return '(' + ', '.join(items) + (',)' if len(items) == 1 else ')')
+    if t is list:
+        return '[' + ', '.join(_stable_repr(v) for v in value) + ']' # type: ignore[attr-defined]
+    if t is dict:
+        return '{' + ', '.join(f'{_stable_repr(k)}: {_stable_repr(v)}' for k, v in value.items()) + '}' # type: ignore[attr-defined]
+    return repr(value)
 
 def _escaped_signature(sig: Signature) -> Signature:
     def wrap(value: object, only_str: bool = False) -> object:
